@@ -9,7 +9,8 @@ GEN_MODULES = ()
 MIN_THEOREMS = 16
 RULE = ("ops: tadd/tsub/tinv = Time.add/subtract/(add then subtract) with integer (h, m, s, us) of either sign, drawn "
         "per component from carry thresholds (59/60/61, 23/24/25, 999999/10^6/10^6+1), whole-day multiples, random "
-        "magnitudes up to several days and cancelling mixtures, plus a few amounts that overflow the carrier date; "
+        "magnitudes up to several days and cancelling mixtures, plus a few amounts that overflow the carrier date; taddf/tsubf = the same "
+        "with `seconds` given as a float k/64 of either sign; "
         "taddtd/tsubtd = +/- a timedelta (method and operator entry points; stdlib timedelta and pendulum.Duration) "
         "with and without a day component (incl. every negative timedelta); tdiff/tminus/trminus = diff(abs) and the "
         "two operator forms on pairs incl. sub-second-only differences, with Time or datetime.time operands; "
@@ -25,7 +26,8 @@ TRUSTED = [
     "oracle = integer arithmetic modulo 86_400_000_000 in this file (no pendulum, no datetime arithmetic)",
 ]
 ASSUMPTIONS = [
-    "amounts are Python ints (float seconds are not exercised); Time operands are naive (tzinfo None)",
+    "amounts are Python ints, plus float `seconds` that are exact multiples of 1/64 s (taddf/tsubf; sent to the model as their exact "
+    "value in microseconds); other floats are not exercised; Time operands are naive (tzinfo None)",
     "the model covers the repaired diff()/closest()/farthest() (fix commits in the repo); on the unrepaired code the oracle fails (F5)",
 ]
 
@@ -107,6 +109,12 @@ def gen_ops(rng, tier):
         yield ("tadd", t) + _amount(rng)
         yield ("tsub", t) + _amount(rng)
         yield ("tinv", _tod(rng)) + _amount(rng)
+        if rng.random() < 0.3:
+            # float `seconds` (what DateTime.add accepts): k/64 s, exactly representable, mostly non-integral, either sign
+            h, m, _s, u = _amount(rng)
+            k64 = rng.choice((rng.randint(-64 * 200, 64 * 200), rng.choice((-1, 1)) * rng.choice((1, 16, 32, 63, 65, 96, 3839, 3841)),
+                              rng.randint(-3, 3) * 64))
+            yield (rng.choice(("taddf", "tsubf")), _tod(rng), max(-99, min(99, h)), max(-999, min(999, m)), k64, max(-10 ** 7, min(10 ** 7, u)))
         x = _td_us(rng)
         yield ("taddtd", _tod(rng), x, rng.randint(0, 2))
         yield ("tsubtd", _tod(rng), x, rng.randint(0, 2))
@@ -163,6 +171,9 @@ def line(op, backend):
     k = op[0]
     if k in ("tadd", "tsub", "tinv"):
         return " ".join(str(v) for v in op)
+    if k in ("taddf", "tsubf"):
+        # the model takes integer amounts: the float seconds k/64 travel as their exact value in microseconds
+        return "%s %d %d %d 0 %d" % ("tadd" if k == "taddf" else "tsub", op[1], op[2], op[3], op[5] + op[4] * 15625)
     if k in ("taddtd", "tsubtd"):
         d, s, u = _td_fields(op[2])
         return f"{k} {op[1]} {d} {s} {u}"
@@ -224,6 +235,10 @@ def impl(op, backend):
         t = _mk(op[1])
         f = t.add if k == "tadd" else t.subtract
         return "ok %d" % _us_of_time(f(hours=op[2], minutes=op[3], seconds=op[4], microseconds=op[5]))
+    if k in ("taddf", "tsubf"):
+        t = _mk(op[1])
+        f = t.add if k == "taddf" else t.subtract
+        return "ok %d" % _us_of_time(f(hours=op[2], minutes=op[3], seconds=op[4] / 64, microseconds=op[5]))
     if k == "tinv":
         t = _mk(op[1])
         kw = dict(hours=op[2], minutes=op[3], seconds=op[4], microseconds=op[5])
@@ -264,6 +279,8 @@ def impl(op, backend):
 # ----------------------------------------------------------------------------- oracle (integers only)
 
 def _delta(op):
+    if op[0] in ("taddf", "tsubf"):
+        return (op[2] * 60 + op[3]) * 60 * US + op[4] * 15625 + op[5]
     return ((op[2] * 60 + op[3]) * 60 + op[4]) * US + op[5]
 
 
@@ -273,8 +290,8 @@ def _in_range(total):
 
 def oracle(op, out, backend):
     k = op[0]
-    if k in ("tadd", "tsub"):
-        total = op[1] + (_delta(op) if k == "tadd" else -_delta(op))
+    if k in ("tadd", "tsub", "taddf", "tsubf"):
+        total = op[1] + (_delta(op) if k in ("tadd", "taddf") else -_delta(op))
         if out == "err OverflowError":
             # allowed only when 1970-01-01 + amount leaves the representable dates (outside "several days")
             return None if not _in_range(total) else f"OverflowError for an amount of {total // DAY} days"
@@ -317,6 +334,8 @@ def tag(op, out):
     k = op[0]
     if out.startswith("err"):
         return k + ":" + out[4:]
+    if k in ("taddf", "tsubf"):
+        return k + (":integral" if op[4] % 64 == 0 else ":negative-fraction" if op[4] < 0 else ":positive-fraction")
     if k in ("tadd", "tsub", "tinv"):
         total = op[1] + (_delta(op) if k != "tsub" else -_delta(op))
         carry = abs(op[2]) > 23 or abs(op[3]) > 59 or abs(op[4]) > 59 or abs(op[5]) > 999999
